@@ -422,6 +422,10 @@ def finding_key(a, o, w, stage, ax):
         return "C02/rate-roundtrip/interval>=2^50ps"
     if stage == "rate" and ax is not None and ax["dt"] >= BIG_INTERVAL:
         return "C02/rate-roundtrip/interval>=2^50ps"
+    if stage == "interval" and a.get("rate") is not None and a.get("si") is None and w["dt"] >= BIG_INTERVAL:
+        # an interval derived from a float64 rate: within 1 ps only below 2^50 ps (C02_rate_interval_bound's guard;
+        # refuted above it) — the same finding seen from the rate side
+        return "C02/rate-roundtrip/interval>=2^50ps"
     if stage == "series-duration" and a.get("duration") is not None:
         return "C02/TimeSeries/duration-given/duration-attribute"
     if stage in ("count", "duration"):
